@@ -1583,6 +1583,7 @@ func TestReplay(t *testing.T) {
 			}
 			return &ev.Failure{Kind: "call", Case: c, Msg: fmt.Sprintf("%s with %v (optimizer %s): Go gives %s, goatlang gives %s\n  %s", c.Desc, c.Args, onoff(c.Optimize), want, got, c.Func)}
 		},
+		"named": replayNamed,
 		"script": func(raw json.RawMessage) *ev.Failure {
 			var c struct {
 				Src      string `json:"src"`
